@@ -68,9 +68,75 @@ def run(ctx) -> None:
         r20_1(ctx, ctx.unit(short))
     r20_2(ctx)
     r20_3(ctx)
+    r20_5(ctx)
     ctx.floor("streaming_units", 20)
     ctx.floor("pull_loops", 15)
     ctx.floor("windows_checked", 3)
+
+
+MATERIALISERS = {"tuple", "list", "sorted", "set", "frozenset", "dict", "deque", "reversed", "sum", "max", "min", "len"}
+ADAPTERS = ["_core.aiter", "_core._aiter_sync", "_core.borrow", "_core.ScopedIter.__init__", "_core.ScopedIter.__aenter__",
+            "builtins.iter", "builtins.anext", "asynctools.borrow", "asynctools.scoped_iter", "asynctools.any_iter",
+            "asynctools.await_each"]
+
+
+def _is_source(ctx, u, e, n) -> bool:
+    """``e`` denotes (an iterator of) an iterable parameter of some library function"""
+    from asl.values import roles_of_annotation
+    for x in ctx.vals.expr(u, e, n):
+        if x[0] not in ("user", "iter", "siter") or ":" not in str(x[1]):
+            continue
+        owner, _, pname = x[1].partition(":")
+        ou = ctx.pkg.unit(owner) if ctx.pkg.has_unit(owner) else None
+        ann = next((p.annotation for p in ou.params() if p.arg == pname), None) if ou is not None else None
+        if ann is not None and ({"ITERABLE", "ITERATOR"} & roles_of_annotation(ann)) \
+                and not (ou.node.args.vararg is not None and ou.node.args.vararg.arg == pname):
+            return True
+    return False
+
+
+def r20_5(ctx) -> None:
+    """No tool or adapter materialises a source: handing a user's iterable to tuple()/list()/
+    sorted()/... creates every item up front and keeps all of them alive until the tool ends."""
+    from asl.values import roles_of_annotation
+    ctx.rule("R20.5", "no streaming tool or iteration adapter hands a source iterable to a materialising builtin "
+                      "(tuple, list, sorted, set, dict, deque, ...)")
+    for short in STREAMING + ADAPTERS:
+        if short in ACCUMULATORS or not ctx.pkg.has_unit(short):
+            continue
+        u = ctx.inlined(ctx.unit(short))
+        cfg = cfg_of(u)
+        bad = 0
+        seen_displays: Set[int] = set()
+        for n in cfg.nodes:
+            if n.kind != "call" or n.tag:
+                continue
+            r = ctx.pkg.resolve_expr_global(u.module, n.ast.func)
+            name = r.qual.split(".")[-1] if r.kind in ("builtin", "stdlib") else ""
+            if name not in MATERIALISERS or (r.kind == "stdlib" and not r.qual.startswith(("builtins.", "collections."))):
+                continue
+            for a in n.ast.args[:1]:
+                if isinstance(a, ast.Starred):
+                    continue
+                if _is_source(ctx, u, a, n):
+                    bad += 1
+                    ctx.fail("R20.5", u, n, f"`{norm(n.ast.func)}(...)` materialises the source `{norm(a)}`: every item is "
+                             "created and retained at once instead of one at a time", node=n)
+        # displays with a starred source: ``(*iterable,)`` / ``[*iterable]`` / ``{*iterable}``
+        for n in cfg.nodes:
+            if n.tag or n.ast is None:
+                continue
+            for d in ast.walk(n.ast):
+                if not isinstance(d, (ast.Tuple, ast.List, ast.Set)) or id(d) in seen_displays:
+                    continue
+                for e in d.elts:
+                    if isinstance(e, ast.Starred) and _is_source(ctx, u, e.value, n):
+                        seen_displays.add(id(d))
+                        bad += 1
+                        ctx.fail("R20.5", u, d, f"`{norm(d)}` unpacks the source `{norm(e.value)}` into a container: every "
+                                 "item is created and retained at once instead of one at a time", node=n)
+        if not bad:
+            ctx.ok("R20.5", u, "no source is handed to a materialising builtin")
 
 
 def _loops_with_pulls(ctx, u) -> List[Tuple[ast.AST, Node]]:
